@@ -13,7 +13,7 @@ structure FragInv (P : Nat) (d : Dec) : Prop where
   size_le : d.fragmentsSize ≤ maxAU + P
   empty   : d.fragmentsSize = 0 → d.fragments = []
   /-- every stored fragment but the header (and possibly the first data fragment) is non-empty, so
-  the NUMBER of stored fragments is bounded by the byte size (false before /repo commit fc590d9) -/
+  the NUMBER of stored fragments is bounded by the byte size (false before /repo commit f1b05d6) -/
   count_le : d.fragments.length ≤ d.fragmentsSize + 1
 
 /-- the part of the invariant about the access unit being collected -/
